@@ -48,7 +48,7 @@ func init() {
 	}
 	ev.Register(&ev.Prop{
 		ID:    "C16N",
-		Rule:  "(b) the same scripts after name edits only (delete / duplicate / rename a declaration, rename or add a use, refer to a later declaration from an origin); oracle: the multiset of (kind in {undeclared, repeated, unused}, name, token range) reported equals an independent name model over the generator's tree and printer spans - a use with no earlier declaration is undeclared, every declaration of a name after the first is repeated, a first declaration with no later use is unused; a variable used only before its declaration may or may not be reported unused; non-trivial = the edit changed the expected multiset",
+		Rule:  "(b) the same scripts after name edits only (delete / duplicate / rename a declaration, rename or add a use, refer to a later declaration from an origin); oracle: the multiset of (kind in {undeclared, repeated, unused}, name, token range) reported equals an independent name model over the generator's tree and printer spans - a use with no earlier declaration is undeclared, every declaration of a name after the first is repeated, a use inside the origin of its own declaration counts as not yet declared; a first declaration with no later use is unused; a variable used only before its declaration may or may not be reported unused; non-trivial = the edit changed the expected multiset",
 		New:   func() any { return &C16NCase{} },
 		Check: checkC16N,
 	})
@@ -156,6 +156,9 @@ func genC16N(t *rapid.T, tier string) any {
 		case op == 5 && len(s.Vars) > 1: // an origin refers to a later declaration
 			j := gen.Uniform(t, "early", len(s.Vars)-1)
 			l := j + 1 + gen.Uniform(t, "later", len(s.Vars)-j-1)
+			if gen.Chance(t, "self", 25) {
+				l = j // the origin mentions the variable being declared
+			}
 			s.Vars[j].Origin = &gen.Call{Fn: "meta", Args: []*gen.Expr{gen.Var(s.Vars[l].Name), gen.Str("k")}}
 			c.Edit += "use-before-declaration $" + s.Vars[l].Name + "; "
 		case op == 6 && len(vars) > 0 && len(s.Vars) > 0: // retarget a use to another declared variable
@@ -287,7 +290,10 @@ func checkC16N(cc any) *ev.Verdict {
 		case !declared:
 			want["undeclared|"+u.name+"|"+spanKey(u.span)]++
 		case u.decl >= 0 && fd == u.decl:
+			// a declaration's origin mentions the variable being declared: not yet declared
 			selfRef = true
+			want["undeclared|"+u.name+"|"+spanKey(u.span)]++
+			usedBefore[u.name] = true
 		case u.decl >= 0 && fd > u.decl:
 			want["undeclared|"+u.name+"|"+spanKey(u.span)]++
 			usedBefore[u.name] = true
@@ -296,8 +302,7 @@ func checkC16N(cc any) *ev.Verdict {
 		}
 	}
 	if selfRef {
-		v.Skipped = "a declaration's origin refers to the variable being declared (not quantified over)"
-		return v
+		v.Label("self-reference")
 	}
 	for name, i := range firstDecl {
 		if !usedAfter[name] {
@@ -410,6 +415,9 @@ func genC17(t *rapid.T, tier string) any {
 			if len(s.Vars) > 1 {
 				j := gen.Uniform(t, "early", len(s.Vars)-1)
 				l := j + 1 + gen.Uniform(t, "later", len(s.Vars)-j-1)
+				if gen.Chance(t, "self", 30) {
+					l = j
+				}
 				if s.Vars[l].Type == "account" {
 					delete(ec.Vars, s.Vars[j].Name)
 					s.Vars[j].Origin = &gen.Call{Fn: "meta", Args: []*gen.Expr{gen.Var(s.Vars[l].Name), gen.Str("k")}}
